@@ -128,9 +128,9 @@ func c11Scenario(s *sc) {
 			s.inconclusive("notification of a7 later than group_wait+%s", slack)
 			return
 		}
-		time.Sleep(300 * time.Millisecond) // the client side writes its log entry after the answer
 	}
 	time.Sleep(time.Until(shortEnd.Add(300 * time.Millisecond)))
+	in.Sink.Settle(time.Second) // the client side writes its log entry after the answer
 	before, err := in.GetSilences()
 	s.must(err, "GET silences")
 	nBefore := len(in.Sink.Reqs())
@@ -169,18 +169,23 @@ func c11Scenario(s *sc) {
 
 	// ---- muting and the notification log after the restart ----
 	tPost = time.Now()
-	as := []AlertIn{al("a1", "1"), al("a2", "2"), al("a3", "3"), al("a4", "1"), al("a6", "6")}
+	as := []AlertIn{al("a1", "1"), al("a2", "2"), al("a3", "3"), al("a4", "1"), al("a6", "6"), al("a8", "3")}
 	if periodic {
 		as = append(as, al("a5", "5"), al("a7", "7"))
 	}
 	_, err = in.PostAlerts(as)
 	s.must(err, "post alerts after restart")
-	ctl := func(reqs []Req) bool { return listed(reqs[nBefore:], "a6") > 0 }
+	// a6: no silence at all; a8: matches only the silence that was expired by hand before the shutdown
+	ctl := func(reqs []Req) bool { return listed(reqs[nBefore:], "a6") > 0 && listed(reqs[nBefore:], "a8") > 0 }
 	if !in.Sink.WaitFor(tPost.Add(gw+slack), ctl) {
 		if in.Sink.WaitFor(tPost.Add(gw+slack+late), ctl) {
 			s.inconclusive("control notification after the restart later than group_wait+%s", slack)
 		} else {
-			s.violate("unsilenced-alert-not-notified", "after the restart the new alert a6 (no silence) was not notified within group_wait+%s", slack+late)
+			if listed(in.Sink.Reqs()[nBefore:], "a6") > 0 {
+				s.violate("expired-silence-mutes-after-restart", "after the restart the new alert a8, which matches only a silence expired before the shutdown, was not notified within group_wait+%s (the unsilenced a6 was)", slack+late)
+			} else {
+				s.violate("unsilenced-alert-not-notified", "after the restart the new alert a6 (no silence) was not notified within group_wait+%s", slack+late)
+			}
 		}
 		return
 	}
